@@ -67,6 +67,11 @@ MUTANTS = [
     ("crawl-namespace-flag-ignored", "C18", "crawl_up_helper", "mypy/find_sources.py", "        if not self.namespace_packages:\n            return None", "        if not self.namespace_packages and not name:\n            return None", "violation"),
     ("crawl-init-module-not-collapsed", "C18", "paths.crawl_up$", "mypy/find_sources.py", '        if module_name == "__init__":\n            return parent_module, base_dir', '        if module_name == "__init__" and not parent_module:\n            return parent_module, base_dir', "violation"),
     ("strip-py-order-swapped-harmless", "C18", "strip_py", "mypy/find_sources.py", "    for ext in PY_EXTENSIONS:\n        if arg.endswith(ext):\n            return arg[: -len(ext)]\n    return None", "    for ext in reversed(PY_EXTENSIONS):\n        if arg.endswith(ext):\n            return arg[: -len(ext)]\n    return None", "pass"),
+    ("typeddict-required-keys-unsorted", "C10", "TypedDictType", "mypy/types.py", "        write_str_list(data, sorted(self.required_keys))", "        write_str_list(data, list(self.required_keys))", "violation"),
+    ("known-modules-cache-never-reset", "C10", "globals", "mypy/build.py", "    instance_cache.reset()\n    reset_known_modules_cache()", "    instance_cache.reset()", "violation"),
+    ("new-process-global-memo", "C10", "globals", "mypy/util.py", "fields_cache: Final[dict[type[object], list[str]]] = {}", "fields_cache: Final[dict[type[object], list[str]]] = {}\nseen_paths: Final[set[str]] = set()\n\n\ndef remember_path(p: str) -> None:\n    seen_paths.add(p)", "violation"),
+    ("error-code-sets-hashed-unsorted", "C10", "detopts", "mypy/options.py", "                val = sorted([code.code for code in val])", "                val = [code.code for code in val]", "violation"),
+    ("typestate-protocol-deps-not-reset", "C10", "globals", "mypy/typestate.py", "    type_state.reset_all_subtype_caches()\n    type_state.reset_protocol_deps()\n    TypeVarId.next_raw_id = 1", "    type_state.reset_all_subtype_caches()\n    TypeVarId.next_raw_id = 1", "violation"),
     ("enabled-parent-check-dropped", "C13", "is_error_code_enabled", "mypy/errors.py", "elif error_code.sub_code_of is not None and error_code.sub_code_of in current_mod_disabled:\n            return False", "elif error_code.sub_code_of is not None and error_code.sub_code_of in current_mod_enabled:\n            return False", "violation"),
 ]
 
